@@ -109,7 +109,9 @@ __thread sim_inst *sim_cur;
 
 static FILE *logf;
 static long seqno;
-static pthread_mutex_t big = PTHREAD_MUTEX_INITIALIZER;
+static pthread_mutex_t big;
+#define FR_LOCK() do { if (free_run) pthread_mutex_lock(&big); } while (0)
+#define FR_UNLOCK() do { if (free_run) pthread_mutex_unlock(&big); } while (0)
 static pthread_cond_t cv = PTHREAD_COND_INITIALIZER;
 static int baton = -1;
 
@@ -133,6 +135,7 @@ static void finish_all(const char *why);
 static void ev(const char *fmt, ...)
 {
 	va_list ap;
+	int over;
 	if (free_run)
 		pthread_mutex_lock(&big);
 	fprintf(logf, "%ld %d ", seqno++, sim_cur ? sim_cur->id : -1);
@@ -140,9 +143,10 @@ static void ev(const char *fmt, ...)
 	vfprintf(logf, fmt, ap);
 	va_end(ap);
 	fputc('\n', logf);
+	over = seqno > max_events;
 	if (free_run)
 		pthread_mutex_unlock(&big);
-	if (seqno > max_events)
+	if (over)
 		finish_all("event-cap");
 }
 
@@ -281,7 +285,7 @@ static void *led_new(sim_inst *I, size_t n, long *serial)
 	return p;
 }
 
-void *sim_alloc(size_t n)
+static void *sim_alloc_u(size_t n)
 {
 	sim_inst *I = sim_cur;
 	long serial;
@@ -308,7 +312,7 @@ static void led_release(sim_inst *I, lent *e, const char *how)
 	X->live_bytes -= (long) e->n;
 }
 
-void *sim_realloc(void *old, size_t n)
+static void *sim_realloc_u(void *old, size_t n)
 {
 	sim_inst *I = sim_cur;
 	long serial;
@@ -318,7 +322,7 @@ void *sim_realloc(void *old, size_t n)
 	if (!I)
 		die("allocation outside any instance");
 	if (!old)
-		return sim_alloc(n);
+		return sim_alloc_u(n);
 	sim_yield();
 	e = led_find(old);
 	if (!e) {
@@ -347,7 +351,7 @@ void *sim_realloc(void *old, size_t n)
 	return p;
 }
 
-void sim_free(void *p)
+static void sim_free_u(void *p)
 {
 	sim_inst *I = sim_cur;
 	lent *e;
@@ -368,6 +372,29 @@ void sim_free(void *p)
 	ev("A free id=%d.%ld", e->inst, e->serial);
 	led_release(I, e, "free");
 	free(p);
+}
+
+void *sim_alloc(size_t n)
+{
+	void *p;
+	FR_LOCK();
+	p = sim_alloc_u(n);
+	FR_UNLOCK();
+	return p;
+}
+void *sim_realloc(void *old, size_t n)
+{
+	void *p;
+	FR_LOCK();
+	p = sim_realloc_u(old, n);
+	FR_UNLOCK();
+	return p;
+}
+void sim_free(void *p)
+{
+	FR_LOCK();
+	sim_free_u(p);
+	FR_UNLOCK();
 }
 
 /* ------------------------------------------------------------------ */
@@ -1364,6 +1391,10 @@ static void on_death(void)
 int main(int argc, char **argv)
 {
 	int timeout = 20;
+	pthread_mutexattr_t ma;
+	pthread_mutexattr_init(&ma);
+	pthread_mutexattr_settype(&ma, PTHREAD_MUTEX_RECURSIVE);
+	pthread_mutex_init(&big, &ma);
 	logf = stdout;
 	signal(SIGPIPE, SIG_IGN);
 #ifdef SIM_ASAN
